@@ -216,8 +216,11 @@ def is_identity_call(p):
 
 
 class Interp:
-    def __init__(self):
+    def __init__(self, helpers=None):
         self.used = []  # (class, method, reason) table rows used, for the evidence
+        # private free functions of the analysed file ({name: fn node}): a call is interpreted through the helper's body
+        self.helpers = helpers or {}
+        self._depth = 0
 
     def lit(self, n):
         t = n["t"]
@@ -396,6 +399,19 @@ class Interp:
                 if strip_generics(p).split("::")[-1] == "Some":
                     return Opt(v, False)
                 return v
+            nm = strip_generics(p)
+            h = self.helpers.get(nm) if "::" not in nm else None
+            if h is not None and self._depth < 3 and h.get("body") is not None:
+                ps = [q for q in ((h.get("sig") or {}).get("params") or []) if not q.get("self")]
+                if len(ps) == len(n["args"]):
+                    e2 = {}
+                    for q, a in zip(ps, n["args"]):
+                        self.bind(q["pat"], self.ev(a, env), e2)
+                    self._depth += 1
+                    try:
+                        return self.ev(h["body"], e2)
+                    finally:
+                        self._depth -= 1
             raise Unknown("function `%s`" % strip_generics(p))
         if k == "mcall":
             return self.mcall(n, env)
